@@ -288,7 +288,15 @@ def rule_pool_construction(ctx):
     ctx.floor("R4", "worker pool construction sites", n, 4)
 
 
+def rule_capture_loops(ctx):
+    """R5: the sequential analyzer looks at every packet of the capture, as the pool's workers do: its capture loop ends only with the
+    source, the cancel signal or a closed result channel - not with a packet it rejects (shared rule _workers.capture_loop_exits)"""
+    from . import _workers as W
+    W.capture_loop_exits(ctx, ctx.program, "R5")
+
+
 def run(ctx):
+    rule_capture_loops(ctx)
     rule_pool_construction(ctx)
     rule_dispatch_accounting(ctx)
     rule_dispatch_identity(ctx)
